@@ -35,6 +35,7 @@ func protocolRepeats(t *testing.T, rep *kit.Report, env kit.Env, evals, nontrivi
 				continue
 			}
 			peer, extra := peer, extra
+			markCase("repeat", "repeat part")
 			synctest.Test(t, func(t *testing.T) {
 				tw := build()
 				_, id, err := tw.r.Router().PingPong.Send(tw.x.Identity().IP, peer, 0)
@@ -72,6 +73,7 @@ func protocolRepeats(t *testing.T, rep *kit.Report, env kit.Env, evals, nontrivi
 				continue
 			}
 			st, pat := st, pat
+			markCase("repeat", "repeat part")
 			synctest.Test(t, func(t *testing.T) {
 				tw := build()
 				capture := func() []byte {
